@@ -57,7 +57,11 @@ class ExternalImportFilter:
         importee = i.importee()
 
         if self._root_module_name.endswith("."):
-            return importee.startswith(self._root_module_name)
+            # the root module itself is internal as well, not only its submodules
+            return (
+                importee.startswith(self._root_module_name)
+                or importee == self._root_module_name[:-1]
+            )
 
         # a module is only internal if it is the root module itself or one of its submodules,
         # not if its name merely starts with the same characters
